@@ -5,8 +5,8 @@ CHECK_DEADLOCK FALSE
 INVARIANTS ClosedOnce NoPendingLost
 CONSTANTS
   MaxDepth = 4
-  MaxSteps = 8
+  MaxSteps = 7
   MaxPend = 2
   Kinds = {"do","loop","forin","fn","pcall","co"}
   Handlers = {"ok","raise","nil","false","nometa"}
-  ViewHist = 1
+  ViewHist = 0
